@@ -217,6 +217,11 @@ def config(sc, work, plug=PLUG):
         conf["grid"]["subgrid"] = list(sc["subgrid"])
     if sc["hasscal"]:
         conf["forcing"]["extra_forcing"] = ["temp"]
+    if sc.get("lonlat_out"):       # longitude / latitude written with every record (C16)
+        for v in ("lon", "lat"):
+            conf["state"]["instance_variables"][v] = "float"
+            conf["state"]["default_values"][v] = 0.0
+            conf["output"]["instance_variables"][v] = dict(encoding=dict(datatype="f8"), attributes={})
     if sc.get("wfield"):
         conf["forcing"]["extra_forcing"] = conf["forcing"].get("extra_forcing", []) + ["w"]
         conf["state"]["instance_variables"]["w"] = "float"
@@ -255,7 +260,7 @@ def decode_files(work, sc, pattern="out*.nc"):
     import numpy as np
     from netCDF4 import Dataset
     files = []
-    ivars = ["age", "farm"] + (["temp"] if sc["hasscal"] else [])
+    ivars = ["age", "farm"] + (["temp"] if sc["hasscal"] else []) + (["lon", "lat"] if sc.get("lonlat_out") else [])
     for fn in sorted(glob.glob(os.path.join(work, pattern))):
         m = re.search(r"_(\d+)\.nc$", fn)
         with Dataset(fn) as d:
@@ -304,7 +309,11 @@ def _rec(t, arr, sl, ivars):
         return [int(round(v)) if np.isfinite(v) else NEG for v in np.asarray(a, float)]
     r = dict(time=t, pid=ii(arr["pid"][sl]), x=qq(arr["X"][sl]), y=qq(arr["Y"][sl]), z=qq(arr["Z"][sl]))
     for v in ivars:
-        r[v] = ii(arr[v][sl]) if v in arr else []
+        if v in ("lon", "lat"):       # degrees relative to (5, 60), quantum 2^-20
+            a = np.asarray(arr[v][sl], float) - (5.0 if v == "lon" else 60.0) if v in arr else np.array([])
+            r[v] = [int(x) if np.isfinite(x) and abs(x) < 2**30 else NEG for x in np.rint(np.where(np.isfinite(a), a, 0) * 2**20) + np.where(np.isfinite(a), 0, NEG)]
+        else:
+            r[v] = ii(arr[v][sl]) if v in arr else []
     # bit-for-bit clauses: a digest of the raw float64 bytes of (X, Y, Z[, temp]) per particle instance
     import hashlib
     cols = [np.asarray(arr[v][sl], dtype="<f8") for v in ("X", "Y", "Z") + (("temp",) if "temp" in arr else ())]
